@@ -106,6 +106,45 @@ void h_first_length(void)
   if (pad == 3 && a0 == 20) V_CANARY("longest first length with full padding");
 }
 
+
+/* ================= encode(): final flush of a pending run (C04: "four copies plus a count byte"; C02: block capacity) ================= */
+#ifndef FF_CAP
+#define FF_CAP 6
+#endif
+static struct { struct encoder_state e; int32_t tail[FF_CAP + GROUP_SIZE + (FF_CAP + 8) / 4 + 2]; } W2;
+void h_final_flush(void)
+{
+  struct encoder_state *s = &W2.e;
+#ifndef FF_NB
+#define FF_NB 5
+#define FF_ST 258
+#endif
+  unsigned nb = FF_NB; int st = FF_ST;          /* concrete per instance: both index the 270 KB encoder object */
+  unsigned i;
+  uint8_t *block = (void *)(s->SA + FF_CAP + GROUP_SIZE);
+  /* what collect() leaves behind (encode.collect.*): 0 <= state < 259; a pending run of >= 4 has its count byte reserved (nblock < capacity) */
+  V_ASSUME(st >= 0 && st < MAX_RUN_LENGTH && nb >= 1 && nb <= FF_CAP && (st < 4 || (nb >= 4 && nb < FF_CAP)));
+  s->max_block_size = FF_CAP; s->nblock = nb; s->rle_state = st;
+  bool was[256]; for (i = 0; i < 256; i++) { bool b; s->cmap[i] = b; was[i] = b; }
+  uint8_t before[FF_CAP]; for (i = 0; i < FF_CAP; i++) { uint8_t x; block[i] = x; before[i] = x; }
+#include "src/extract/final_flush.inc"
+  if (st >= 4) {
+    V_ASSERT(s->nblock == nb + 1 && block[nb] == (uint8_t)(st - 4), "final flush: a pending run of four or more gets its count byte (run length - 4) appended");
+    V_ASSERT(s->cmap[st - 4], "final flush: the count byte value is marked as used");
+#if FF_ST >= 4
+    V_CANARY("pending run flushed");
+#endif
+  } else {
+    V_ASSERT(s->nblock == nb, "final flush: nothing is appended when no count byte is pending");
+#if FF_ST < 4
+    V_CANARY("nothing pending");
+#endif
+  }
+  V_ASSERT(s->nblock <= FF_CAP, "final flush: the block never exceeds its capacity");
+  { int ok = 1; for (i = 0; i < FF_CAP; i++) if (i < nb && block[i] != before[i]) ok = 0; V_ASSERT(ok, "final flush: the bytes already in the block are unchanged"); }
+  { int ok = 1; for (i = 0; i < 256; i++) if (s->cmap[i] != was[i] && !(st >= 4 && i == (unsigned)(st - 4))) ok = 0; V_ASSERT(ok, "final flush: no other in-use mark changes"); }
+}
+
 #ifdef VERIF_REPLAY
 int main(void) { HARNESS(); puts("REPLAY-PASS"); return 0; }
 #endif
